@@ -79,10 +79,15 @@ impl Prop for C05 {
             .into()
     }
     fn assumptions(&self) -> Vec<String> {
-        vec!["the lefrw binary is open+save, which is what the save leg executes in-process".into()]
+        vec!["the lefrw binary is open+save; the save leg executes that in-process in both tiers, and the thorough tier additionally spawns the real binary (generator lefrw-binary; skipped with a counter if it cannot be built)".into()]
     }
     fn plan(&self, tier: Tier) -> Vec<GenSpec> {
-        vec![GenSpec::random("reader-image", tier.pick(50_000, 600_000)), GenSpec::enumerated("repo-files", 1)]
+        vec![
+            GenSpec::random("reader-image", tier.pick(50_000, 600_000)),
+            GenSpec::enumerated("repo-files", 1),
+            // the real `lefrw` binary, built from /repo by ./check for the thorough tier (LVH_BINS); spawned per case
+            GenSpec::random("lefrw-binary", tier.pick(0, 400)),
+        ]
     }
     fn run_case(&self, cx: &mut Cx) {
         match cx.gen.as_str() {
@@ -103,6 +108,63 @@ impl Prop for C05 {
                     }
                     _ => cx.count("source_rejected_by_reader_(C04)"),
                 }
+            }
+            "lefrw-binary" => {
+                let bin = match std::env::var("LVH_BINS") {
+                    Ok(d) if std::path::Path::new(&d).join("lefrw").exists() => std::path::Path::new(&d).join("lefrw"),
+                    _ => {
+                        cx.count("lefrw_binary_unavailable");
+                        return;
+                    }
+                };
+                let cfg = LefCfg::default();
+                let g = rand_lef(&mut cx.rng, &cfg);
+                let (mut text, _) = render(&g, &cfg, &mut cx.rng, Style::plain());
+                let broken = cx.n % 5 == 0;
+                if broken {
+                    text = text.replacen(" ; ", " ", 1); // drop one semicolon: the binary must fail cleanly
+                }
+                cx.eval();
+                cx.nontrivial(crate::rt::prng::strhash(&text));
+                let (pin, pout) = (cx.tmp("rw-in.lef"), cx.tmp("rw-out.lef"));
+                std::fs::write(&pin, &text).unwrap();
+                let _ = std::fs::remove_file(&pout);
+                let expect = open_text(cx, &text);
+                let st = std::process::Command::new(&bin).arg(&pin).arg(&pout).stdout(std::process::Stdio::null()).stderr(std::process::Stdio::null()).status();
+                match (st, expect) {
+                    (Ok(st), Ok(Ok(lib))) => {
+                        use std::os::unix::process::ExitStatusExt;
+                        if st.signal().is_some() {
+                            cx.violation("lefrw|killed-by-signal", json!({"signal": st.signal(), "text": text}));
+                        } else if !st.success() {
+                            cx.violation("lefrw|failed-on-readable-library", json!({"code": st.code(), "text": text}));
+                        } else {
+                            match guard(|| LefLibrary::open(&pout)) {
+                                Ok(Ok(l2)) if l2 == lib => cx.count("lefrw_roundtrip_ok"),
+                                Ok(Ok(l2)) => {
+                                    let (class, at) = lef_diff(&lib, &l2);
+                                    cx.violation(&format!("lefrw|reread-mismatch|{}", class), json!({"at": at}));
+                                }
+                                Ok(Err(e)) => cx.violation(&format!("lefrw|reread-error|{}", lef_err_class(&e)), json!({"error": format!("{:?}", e).chars().take(300).collect::<String>()})),
+                                Err(c) => cx.violation(&format!("lefrw|reread-panic|{}", c.norm_msg()), json!({"panic": c.msg})),
+                            }
+                        }
+                    }
+                    (Ok(st), _) => {
+                        use std::os::unix::process::ExitStatusExt;
+                        if st.signal().is_some() || st.code() == Some(101) {
+                            cx.violation("lefrw|crashed-on-unreadable-input", json!({"status": format!("{:?}", st), "text": text}));
+                        } else if st.success() {
+                            cx.violation("lefrw|succeeded-on-unreadable-input", json!({"text": text}));
+                        } else {
+                            cx.count("lefrw_clean_failure");
+                        }
+                    }
+                    (Err(e), _) => cx.inconclusive(format!("cannot spawn lefrw: {}", e)),
+                }
+                let _ = std::fs::remove_file(&pin);
+                let _ = std::fs::remove_file(&pout);
+                cx.sample(|| json!({"lefrw": "open+save through the real binary", "broken_input": broken}));
             }
             "repo-files" => {
                 for d in REPO_LEF_DIRS {
